@@ -151,18 +151,18 @@ func c10JudgeSetCase(tree *c10Tree, l *c10Layout, c *c10SetCase, o *c10SetOutcom
 		want = 2
 		cnt("budget_below_two_cases", 1)
 	}
+	if int64(len(derived)) > want {
+		add("C10|cpuset|count|over-budget", fmt.Sprintf("BE cpuset %v has %d CPUs, budget %d milli allows %d", derived, len(derived), c.BudgetMilli, want))
+	}
 	step := c10StepLimit(l.N)
 	stepLimited := false
 	if lim := int64(len(c.Old)) + step; want > lim {
 		if int64(len(derived)) > lim {
-			add("C10|cpuset|count|over-step-limit", fmt.Sprintf("BE cpuset %v has %d CPUs: grows from %d by more than the step limit %d", derived, len(derived), len(c.Old), step))
+			add("C10|cpuset|count|over-step-limit", fmt.Sprintf("BE cpuset %v has %d CPUs: grows from %d by more than the step limit %d (budget %d milli)", derived, len(derived), len(c.Old), step, c.BudgetMilli))
 		}
 		want = lim
 		stepLimited = true
 		cnt("step_limited_cases", 1)
-	}
-	if int64(len(derived)) > want {
-		add("C10|cpuset|count|over-budget", fmt.Sprintf("BE cpuset %v has %d CPUs, budget allows %d (budget %d milli, old size %d, step %d)", derived, len(derived), want, c.BudgetMilli, len(c.Old), step))
 	}
 	// clause: exactly that many whenever enough eligible CPUs exist
 	if int64(prot.eligMin) >= want {
